@@ -57,7 +57,7 @@ end
 (* ---------------------------------------------------------------- StoreB *)
 module B = struct
   open StoreB
-  let kind_of = function "buffer" -> KBuffer | "fleet" -> KFleet | "belt" -> KBelt | k -> failwith ("kind " ^ k)
+  let kind_of = function "buffer" -> KBuffer | "fleet" -> KFleet | "belt" -> KBelt | "slot" -> KSlot | k -> failwith ("kind " ^ k)
   let mode_of = function "FIFO" -> FIFO | "LIFO" -> LIFO | k -> failwith ("mode " ^ k)
   let op_of w =
     let i n = int_of_string (L.nth w n) in
@@ -70,6 +70,7 @@ module B = struct
     | "CGET" -> CGet (nat_of_int (i 1))
     | "READY" -> Ready (nat_of_int (i 1))
     | "GATE" -> SetGate (i 1 <> 0)
+    | "TRIGPUT" -> TrigPut
     | "SYNC" -> Sync (nat_of_int (i 1))
     | o -> failwith ("op " ^ o)
   let out_str = function
@@ -92,6 +93,43 @@ module B = struct
     L.iter line (run_trace s0 (L.map op_of ops))
 end
 
+(* ---------------------------------------------------------------- TBuffer (timed Buffer edge, C11) *)
+module T = struct
+  open StoreB
+  open TBuffer
+  let lens_str s =
+    let l = TieB.lensB s in
+    Printf.sprintf "%b,%b,%d" (SrcFragments.coq_Buffer_can_put l) (SrcFragments.coq_Buffer_can_get l)
+      (int_of_z (SrcFragments.coq_Buffer_occupancy l))
+  let state_str b =
+    let s = b.st in
+    Printf.sprintf "%s|%s|%s|%s|%s|%s|%d|%s"
+      (ints (L.map int_of_nat s.transit)) (ints (L.map int_of_nat s.ready))
+      (B.toks s.putq) (B.toks s.putres) (B.toks s.getq)
+      (String.concat "," (L.map (fun (r, it) -> Printf.sprintf "%d:%d" (int_of_nat r.r_tok) (int_of_nat it)) s.getres))
+      (int_of_z b.clock)
+      (String.concat "," (L.map (fun (i, d) -> Printf.sprintf "%d@%d" (int_of_nat i) (int_of_z d)) b.timers))
+  let case hdr ops =
+    (* hdr: CASE tbuffer <mode> <cap> *)
+    let b = ref (tinit (B.mode_of (L.nth hdr 2)) (nat_of_int (int_of_string (L.nth hdr 3)))) in
+    let dead = ref false in
+    L.iter (fun w ->
+      if !dead then print_string "ILLEGAL\n" else
+      let i n = int_of_string (L.nth w n) in
+      match L.hd w with
+      | "PROBE" -> Printf.printf "probe:%s||%s\n" (lens_str !b.st) (state_str !b)
+      | _ ->
+        let o = match L.hd w with
+          | "TPUT" -> TPut (nat_of_int (i 1), nat_of_int (i 2), nat_of_int (i 3), z_of_int (i 4))
+          | "FIRE" -> TFire (nat_of_int (i 1))
+          | "IDLE" -> TIdle (z_of_int (i 1))
+          | _ -> TApi (B.op_of w) in
+        (match tstep !b o with
+         | Some ((b', r), ts) -> b := b';
+             Printf.printf "%s|%s|%s\n" (B.out_str r) (ints (L.map int_of_nat ts)) (state_str b')
+         | None -> dead := true; print_string "ILLEGAL\n")) ops
+end
+
 let () =
   let cur = ref None and ops = ref [] in
   let flush () =
@@ -102,6 +140,7 @@ let () =
          (match L.nth hdr 1 with
           | "storep" -> P.case hdr (L.rev !ops)
           | "storeb" -> B.case hdr (L.rev !ops)
+          | "tbuffer" -> T.case hdr (L.rev !ops)
           | m -> failwith ("model " ^ m));
          print_string "END\n");
     cur := None; ops := [] in
